@@ -44,7 +44,9 @@ fn cases() -> Vec<Case> {
     }
     // the attribute that carries the address, surrounded by doc lines and other attributes in every order
     for (kind, ety) in [("struct_singleton", 0usize), ("opaque_struct_singleton", 0), ("enum_singleton", 0), ("extern_value", 0), ("extern_value", 3)] {
-        for ctx in 1..=6 {
+        // 7..=10 (extern values only): another single-integer attribute, which extern values ignore, next to it
+        let top = if kind == "extern_value" { 10 } else { 6 };
+        for ctx in 1..=top {
             out.push(Case { kind, addr: EXEC_ADDRS[1] + 0xB00, style: NumStyle::Hex, ety, exec: true, public: true, ctx });
         }
     }
@@ -125,7 +127,8 @@ fn module_of(c: &Case) -> String {
 
 /// Rewrites the attribute line that carries `singleton(..)` / `address(..)`: 1 doc line before, 2 doc line
 /// after, 3 doc lines on both sides, 4 one bracket per attribute, 5 the same in reverse order,
-/// 6 reverse order inside one bracket.
+/// 6 reverse order inside one bracket; 7-10 (extern values) an ignored single-integer attribute (`align`, `size`,
+/// `index`) in its own bracket before / after, or in the same bracket before / after.
 fn recontext(text: &str, ctx: usize) -> String {
     if ctx == 0 {
         return text.to_string();
@@ -139,6 +142,10 @@ fn recontext(text: &str, ctx: usize) -> String {
                 1 => out.push_str(&format!("/// where it lives\n{line}\n")),
                 2 => out.push_str(&format!("{line}\n/// where it lives\n")),
                 3 => out.push_str(&format!("/// first\n///\n/// second\n{line}\n/// third\n")),
+                7 => out.push_str(&format!("#[align(16)]\n{line}\n")),
+                8 => out.push_str(&format!("{line}\n#[align(16)]\n")),
+                9 => out.push_str(&format!("#[size(64), {inner}]\n")),
+                10 => out.push_str(&format!("#[{inner}, index(2)]\n")),
                 4 | 5 => {
                     if ctx == 5 {
                         attrs.reverse();
@@ -472,7 +479,7 @@ fn run_pairs(rep: &mut Report, only_i: Option<usize>) {
 pub fn run(tier: &str, only: Option<&Value>) -> i32 {
     let mut rep = Report::new("C15", tier);
     let all = cases();
-    rep.rule = "E1: #[singleton(A)] on a type and on an enum, and `extern gv: T` with #[address(A)] for T in {u32, *mut u8, [u16; 4], a user struct, pointer to it, an enum, u64}, A over five mappable absolute addresses and four unmappable ones (text only), in decimal / hex / underscore spelling, public and private; the attribute carrying the address preceded / followed by doc lines, in its own bracket, before and after the item's other attributes; extern values without address must be rejected; extern values of types imported by name and through a module, under every order in which the modules are added. Oracle X: the data page is mapped at A on the host; struct singleton: null -> None, pointer to object 1 / 2 -> exactly that object; enum singleton: each variant stored at A is returned; extern value: the returned reference is at A. Oracle S: accessor type, visibility, the address as the accessor's only integer literal (by value, however spelled), accessor bodies identical at both widths (the indirection level itself is decided by executing them). distinct = distinct (kind, address, spelling, type)".into();
+    rep.rule = "E1: #[singleton(A)] on a type and on an enum, and `extern gv: T` with #[address(A)] for T in {u32, *mut u8, [u16; 4], a user struct, pointer to it, an enum, u64}, A over five mappable absolute addresses and four unmappable ones (text only), in decimal / hex / underscore spelling, public and private; the attribute carrying the address preceded / followed by doc lines, in its own bracket, before and after the item's other attributes; for extern values also with another single-integer attribute (align / size / index, which extern values ignore) before and after it, in its own bracket and in the same one; extern values without address must be rejected; extern values of types imported by name and through a module, under every order in which the modules are added. Oracle X: the data page is mapped at A on the host; struct singleton: null -> None, pointer to object 1 / 2 -> exactly that object; enum singleton: each variant stored at A is returned; extern value: the returned reference is at A. Oracle S: accessor type, visibility, the address as the accessor's only integer literal (by value, however spelled), accessor bodies identical at both widths (the indirection level itself is decided by executing them). distinct = distinct (kind, address, spelling, type)".into();
     let only_i = only.map(|l| l["index"].as_u64().unwrap_or(0) as usize);
     let only_space = only.map(|l| l["space"].as_str().unwrap_or("accessors").to_string());
     if tier == "thorough" && only.is_none() || only_space.as_deref() == Some("pairs") {
